@@ -367,6 +367,22 @@ class WrappedRecord:
         return repr(self.record)
 
 
+class MembershipTransformer(ast.NodeTransformer):
+    """Rewrite ``a in b`` and ``a not in b`` to calls of the comparators the (non compiled) Selector uses.
+
+    Python evaluates ``a not in b`` as ``not (a in b)`` and ``str.__contains__`` rejects anything that is not a string, so a
+    membership test on a field the record does not have would be True or raise instead of being False like every other comparison
+    on a missing field.
+    """
+
+    def visit_Compare(self, node):
+        self.generic_visit(node)
+        if len(node.ops) == 1 and isinstance(node.ops[0], (ast.In, ast.NotIn)):
+            func = ast.Name(id="__in__" if isinstance(node.ops[0], ast.In) else "__not_in__", ctx=ast.Load())
+            return ast.copy_location(ast.Call(func=func, args=[node.left, node.comparators[0]], keywords=[]), node)
+        return node
+
+
 class CompiledSelector:
     """CompiledSelector is faster than Selector but unsafe if you don't trust the query."""
 
@@ -377,10 +393,14 @@ class CompiledSelector:
         self.ns = {name: getattr(dynamic_fieldtype, name) for name in WHITELIST_TREE}
         self.ns.update({func.__name__: func for func in FUNCTION_WHITELIST})
         self.ns["net"] = net
+        self.ns["__in__"] = AST_COMPARATORS[ast.In]
+        self.ns["__not_in__"] = AST_COMPARATORS[ast.NotIn]
 
         if expression:
+            tree = ast.parse(expression, filename="<code>", mode="eval")
+            tree = ast.fix_missing_locations(MembershipTransformer().visit(tree))
             self.code = compile(
-                source=expression,
+                source=tree,
                 filename="<code>",
                 mode="eval",
                 flags=__future__.unicode_literals.compiler_flag,
